@@ -12,7 +12,7 @@
 (*     (closing) curly quotes -- except the raw typed text, untouched.     *)
 (* The split that defines "leading/trailing punctuation" is Split.tla's.   *)
 (***************************************************************************)
-EXTENDS Split, TLC, Json
+EXTENDS Split, TLC, Json, IOUtils
 
 CONSTANTS MaxLen, Method,     \* "phonetic" | "fixed"
           MaxLearn            \* longest class string run with a learned choice
@@ -20,8 +20,13 @@ VARIABLE text
 \* (fixed: k* a consonant, n* punctuation of the layout, s* an ASCII symbol the layout emits as it is and that is no punctuation
 \*  for the splitter - composed text and raw key text coincide)
 Tokens == IF Method = "phonetic" THEN {"L*", "Q*", "N*", "C*", "B*"} ELSE {"k*", "Q*", "n*", "C*", "s*"}
+\* ... and, as literal texts, every emoticon of the bundled table that holds a quote character (work/gen/emoticon_quotes.json, dumped
+\* from the emojicon tables by the harness): punctuation around a word part that the engine ALSO knows as a whole (phonetic method)
+EmoticonTexts == IF Method = "phonetic" THEN LET L == JsonDeserialize(IOEnv.VERIF_GEN \o "/emoticon_quotes.json") IN {L[i] : i \in DOMAIN L} ELSE {}
+IsEmoticonText == text \in EmoticonTexts
 Init == text = <<>>
-Next == Len(text) < MaxLen /\ \E t \in Tokens : text' = Append(text, t)
+Next == \/ (~IsEmoticonText /\ Len(text) < MaxLen /\ \E t \in Tokens : text' = Append(text, t))
+        \/ (text = <<>> /\ \E e \in EmoticonTexts : text' = e)
 Spec == Init /\ [][Next]_text
 
 \* the fixed method splits the composed text with ':' as punctuation, the phonetic one without
@@ -54,19 +59,23 @@ Scenario ==
 \* with a choice learned for the very text - each side in its own user-data directory: type, commit another candidate than the
 \* preselected one, type the same text again; the two second lists must relate like the first ones (phonetic method: the
 \* fixed one learns nothing).  Each scenario makes its own contexts (they write the user files).
-CfgH(smart, h) == Cfg(smart, TRUE, FALSE)
+CfgH(smart, eng) == Cfg(smart, eng, FALSE)
 CheckAt(on, off, i) == [k |-> "curl", on |-> <<on, i>>, off |-> <<off, i>>, parts |-> Typed,
                         wordempty |-> (S.word = <<>>), translit |-> (Method = "phonetic")]
-Learned ==
-    [mc |-> "Script", site |-> "curl", variants |-> 2, reuse |-> FALSE,
+Learned(eng, nvar) ==
+    [mc |-> "Script", site |-> "curl", variants |-> nvar, reuse |-> FALSE,
      vars |-> [P |-> Back(S.pre), W |-> Back(S.word), Q |-> Back(S.trail)],
-     runs |-> [A |-> <<[op |-> "new", cfg |-> CfgH(TRUE, "hA"), home |-> "hA"],  [op |-> "type", text |-> Typed],
+     runs |-> [A |-> <<[op |-> "new", cfg |-> CfgH(TRUE, eng), home |-> "hA"],  [op |-> "type", text |-> Typed],
                        [op |-> "commit", idx |-> "other"], [op |-> "type", text |-> Typed]>>,
-               B |-> <<[op |-> "new", cfg |-> CfgH(FALSE, "hB"), home |-> "hB"], [op |-> "type", text |-> Typed],
+               B |-> <<[op |-> "new", cfg |-> CfgH(FALSE, eng), home |-> "hB"], [op |-> "type", text |-> Typed],
                        [op |-> "commit", idx |-> "other"], [op |-> "type", text |-> Typed]>>],
      checks |-> <<CheckAt("A", "B", 1), CheckAt("A", "B", 3)>>]
-EmitLearned == (Method = "phonetic" /\ HasQuote(text) /\ S.word # <<>> /\ Len(text) <= MaxLearn)
-                  => PrintT(<<"REPLAY", ToJson(Learned)>>)
+\* (emoticons: with the English option on and off - the literal text of an emoticon is offered either way - and with each of
+\*  the other candidates committed)
+EmitLearned == /\ (Method = "phonetic" /\ HasQuote(text) /\ S.word # <<>> /\ Len(text) <= MaxLearn /\ ~IsEmoticonText)
+                     => PrintT(<<"REPLAY", ToJson(Learned(TRUE, 2))>>)
+               /\ (IsEmoticonText /\ S.word # <<>>)
+                     => (PrintT(<<"REPLAY", ToJson(Learned(TRUE, 3))>>) /\ PrintT(<<"REPLAY", ToJson(Learned(FALSE, 3))>>))
 
 \* only strings that contain a quote are interesting for the pair (the others are C05/C06 material)
 Emit == /\ (text # <<>> /\ HasQuote(text)) => PrintT(<<"REPLAY", ToJson(Scenario)>>)
